@@ -11,7 +11,7 @@ import random
 ID = "C08"
 TRACE = ("Trace_AxisPerm", "Trace_AxisPerm.cfg")
 CHUNK = 2
-PARALLEL = 3
+PARALLEL = 4
 RES = 25e-9
 
 
